@@ -85,7 +85,7 @@ func c09Vocabulary() []c09Sym {
 			out = append(out, c09Sym{sql.Token{Type: tt, Text: "t"}, "ident:t"}, c09Sym{sql.Token{Type: tt, Text: "databases"}, "ident:databases"})
 		case sql.INT:
 			out = append(out, c09Sym{sql.Token{Type: tt, Text: "1"}, "int:1"}, c09Sym{sql.Token{Type: tt, Text: "99999999999999999999"}, "int:20digits"},
-				c09Sym{sql.Token{Type: tt, Text: ""}, "int:empty"})
+				c09Sym{sql.Token{Type: tt, Text: ""}, "int:empty"}, c09Sym{sql.Token{Type: tt, Text: "0"}, "int:0"}, c09Sym{sql.Token{Type: tt, Text: "9223372036854775807"}, "int:max"})
 		case sql.STR:
 			out = append(out, c09Sym{sql.Token{Type: tt, Text: "s"}, "str:s"}, c09Sym{sql.Token{Type: tt, Text: ""}, "str:empty"})
 		default:
